@@ -5,6 +5,7 @@ package core
 
 import (
 	"hash/fnv"
+	"sync/atomic"
 )
 
 // Rand is a small splitmix64 generator. Every case gets its own instance
@@ -23,9 +24,11 @@ func Mix(seed uint64, prop string, idx int) uint64 {
 	return r.U64()
 }
 
+// U64 is safe for concurrent use (callbacks of one case run on several
+// goroutines of the code under test; with concurrent callers the split of the
+// sequence between them follows the schedule, as everything else then does).
 func (r *Rand) U64() uint64 {
-	r.s += 0x9E3779B97F4A7C15
-	z := r.s
+	z := atomic.AddUint64(&r.s, 0x9E3779B97F4A7C15)
 	z = (z ^ (z >> 30)) * 0xBF58476D1CE4E5B9
 	z = (z ^ (z >> 27)) * 0x94D049BB133111EB
 	return z ^ (z >> 31)
